@@ -53,6 +53,15 @@ inline bool operator==(const Frame &a, const Frame &b)
          (!a.masked || std::memcmp(a.key, b.key, 4) == 0) && a.payload == b.payload;
 }
 
+/// a complete application message
+struct Msg
+{
+  bool text = true;
+  std::string payload;
+};
+inline bool operator==(const Msg &a, const Msg &b) { return a.text == b.text && a.payload == b.payload; }
+inline bool operator!=(const Msg &a, const Msg &b) { return !(a == b); }
+
 enum class LenForm
 {
   Minimal,
@@ -248,6 +257,97 @@ inline void appendCodePoint(std::string &o, std::uint32_t cp)
     o += static_cast<char>(0x80 | ((cp >> 6) & 0x3F));
     o += static_cast<char>(0x80 | (cp & 0x3F));
   }
+}
+
+// ---- reference model: which messages does a conformant frame sequence deliver? ------------
+struct Model
+{
+  std::vector<Msg> delivered; // messages completed inside the conformant prefix, in order
+  bool conformant = true;     // false: a frame violated the protocol state machine; modelling stopped there
+  bool closed = false;        // a close frame ended the sequence
+  std::uint16_t closeCode = 1005;
+  std::string closeReason;
+  bool invalidText = false; // a complete text message was not UTF-8; modelling stopped there
+  std::string invalidPayload;
+  std::size_t pings = 0;
+  std::size_t largestMessage = 0;
+  std::size_t framesModelled = 0; // frames looked at before modelling stopped (== size: all of them)
+};
+
+/// `maxMessage`: modelling stops (conformant=false) when a message grows beyond it, because what
+/// the endpoint does then is its own policy.
+inline Model modelFrames(const std::vector<Frame> &frames, std::size_t maxMessage = ~std::size_t(0))
+{
+  Model m;
+  bool open = false;
+  Msg cur;
+  for (const Frame &f : frames)
+  {
+    ++m.framesModelled;
+    if (f.rsv != 0 || !isDefinedOpcode(f.opcode) || (isControlOpcode(f.opcode) && (!f.fin || f.payload.size() > 125)))
+    {
+      m.conformant = false;
+      return m;
+    }
+    if (f.opcode == OpPing)
+    {
+      ++m.pings;
+      continue;
+    }
+    if (f.opcode == OpPong) continue;
+    if (f.opcode == OpClose)
+    {
+      if (f.payload.size() == 1)
+      {
+        m.conformant = false;
+        return m;
+      }
+      m.closed = true;
+      if (f.payload.size() >= 2)
+      {
+        m.closeCode = static_cast<std::uint16_t>((static_cast<std::uint8_t>(f.payload[0]) << 8) | static_cast<std::uint8_t>(f.payload[1]));
+        m.closeReason = f.payload.substr(2);
+      }
+      return m;
+    }
+    if (f.opcode == OpCont)
+    {
+      if (!open)
+      {
+        m.conformant = false;
+        return m;
+      }
+      cur.payload += f.payload;
+    }
+    else
+    {
+      if (open)
+      {
+        m.conformant = false;
+        return m;
+      }
+      cur = Msg{f.opcode == OpText, f.payload};
+      open = true;
+    }
+    if (cur.payload.size() > m.largestMessage) m.largestMessage = cur.payload.size();
+    if (cur.payload.size() > maxMessage)
+    {
+      m.conformant = false;
+      return m;
+    }
+    if (f.fin)
+    {
+      open = false;
+      if (cur.text && !utf8Valid(cur.payload))
+      {
+        m.invalidText = true;
+        m.invalidPayload = cur.payload;
+        return m;
+      }
+      m.delivered.push_back(cur);
+    }
+  }
+  return m;
 }
 
 // ---- opening handshake helpers (OpenSSL, not iora's sha1/base64) -----------------------
